@@ -149,6 +149,26 @@ def run(ctx: Ctx) -> Result:
                     try: lk = T.make_timestamp_between_lock(b_, e_).bytes
                     except BaseException: continue
                     cases.append(('between_lock', cfg, cache, lk, ('T' if t < e_ else 'F') if (t >= b_ and slack_ok) else 'ERR', (b_, t, now, 60)))
+    # the execution timestamp defaults to the clock of THAT run: an earlier run without a supplied timestamp (same context dict, or none
+    # at all) does not fix it for later runs
+    def clock_history():
+        F = vmrun.impl.functions()
+        T0 = vmrun.NOW
+        la = T.make_timestamp_after_lock(T0 + 500).bytes; lb = T.make_timestamp_between_lock(T0 - 5, T0 + 500).bytes
+        for how in ('no context at all', 'the same context dict', 'the same context dict holding a sigfield'):
+            d = {'sigfield1': b'x'} if 'sigfield' in how else {}
+            got = []
+            for now_ in (T0, T0 + 1000, T0 + 2000):
+                with vmrun.Env(vmrun.Cfg(now=now_)) as env:
+                    for lk in (la, lb):
+                        try: got.append(F.run_auth_scripts([lk]) if how == 'no context at all' else F.run_auth_scripts([lk], d))
+                        except BaseException as e: got.append('RAISED:' + type(e).__name__)
+            res.note_case(('clock-history', how))
+            want = [False, True, True, False, True, False]
+            if got != want and len(res.violations) < 10:
+                res.violations.append({'input': {'what': f'after-lock(T0+500) and between-lock(T0-5, T0+500) validated with no timestamp supplied at clock T0, T0+1000, T0+2000, {how}', 'script': la.hex(), 'scripts': [la.hex(), lb.hex()], 'cfg': vmrun.Cfg(now=T0).line(), 'cache': '-'},
+                                       'expected': str(want), 'observed': str(got) + f' (context afterwards: {sorted(map(str, d))})', 'how_to_run': './check C16 --tier quick'})
+    vmrun.in_big_thread(clock_history)
     # the same checks inside a called function, after a call has returned, and inside an IF body: the verifier's clock and
     # thresholds are the run's, wherever the instruction sits (every 7th case, all kinds)
     def deff(h, b): return op('DEF') + bytes([h]) + len(b).to_bytes(2, 'big') + b
